@@ -79,7 +79,7 @@ type opJ struct {
 	N    int      `json:"n,omitempty"`  // drain: maximum number of steps (0 = all)
 	ID2  uint64   `json:"id2,omitempty"` // race: the checkpoint whose list save is issued while the first one is inside its file commit
 	Srcs []int    `json:"srcs,omitempty"` // restore: the databases whose handles of checkpoint id are restored together (composite)
-	Fail int      `json:"fail,omitempty"` // retain / step: storage fault during this operation: 1 = the Save (checkpoints file / WAL / first table of the flush) fails, 2 = a WAL delete of Save's Destroy fails
+	Fail int      `json:"fail,omitempty"` // restore: p+1 = one storage read of the replayed WAL files fails, read number p modulo the number of reads of the healthy replay; retain / step: storage fault during this operation: 1 = the Save (checkpoints file / WAL / first table of the flush) fails, 2 = a WAL delete of Save's Destroy fails
 }
 
 func decodeOps(c *hx.Case) ([]opJ, error) {
@@ -166,6 +166,8 @@ type world struct {
 	universe map[string][]byte
 	nbWait   chan *nbCall
 	gcCount  int // table objects collected (deletes observed in gc operations)
+	gone     sync.Map      // *dkv.DB -> chan struct{}, see goneCh (entries only while a faulted restore is in progress: a key would keep the object reachable)
+	faulting atomic.Bool   // a restore with a storage read fault is in progress
 	dead     sync.Map      // *dkv.DB of crashed database objects: their tasks are not stopped at hook points any more
 	closed   chan struct{} // closed at the end of the case: every parked goroutine is let go
 }
@@ -193,11 +195,22 @@ func hook(name string, args ...any) {
 			a.id = id
 		}
 	}
+	var gone chan struct{} // nil: never ready
+	if w.faulting.Load() {
+		gone = w.goneCh(db)
+	}
 	w.arrivals <- a
 	select {
 	case <-a.gate:
 	case <-w.closed:
+	case <-gone:
 	}
+}
+
+// goneCh: closed when the database object is abandoned by the harness while one of its tasks may be parked unregistered.
+func (w *world) goneCh(db *dkv.DB) chan struct{} {
+	c, _ := w.gone.LoadOrStore(db, make(chan struct{}))
+	return c.(chan struct{})
 }
 
 func (w *world) slotOf(db *dkv.DB) *slot {
@@ -713,35 +726,52 @@ type handleObs struct {
 	Missing []fname
 }
 
+// countFS counts the ReadAt calls on the files opened through it.
+type countFS struct {
+	storage.FileSystem
+	n int
+}
+type countFile struct {
+	storage.File
+	c *countFS
+}
+
+func (c *countFS) Open(path string) storage.File { return &countFile{File: c.FileSystem.Open(path), c: c} }
+func (f *countFile) ReadAt(p []byte, off int64) (int, error) {
+	f.c.n++
+	return f.File.ReadAt(p, off)
+}
+
 // replayRotations predicts how often DB.Start rotates the memtable while it replays the WALs of the given handles (in the order
 // of the handles, each WAL after its own After, keys outside [lo,hi) skipped when hi > 0): the size rules of memtable.Put/Delete
 // and wal.Writer.Put/Delete (the ones of Model/Ckpt.v: 17+|k|+|v| per entry with a replaced entry subtracted, full when > MemTableSize;
 // 8+4+|k|+1[+4+|v|] bytes per operation, full when >= MaxWALSize). Only used to keep the harness from deadlocking itself; a wrong
 // prediction cannot hide or invent a difference.
-func (w *world) replayRotations(hs []*handleRec, lo, hi int) (rot int) {
-	defer func() { recover() }()
+func (w *world) replayRotations(hs []*handleRec, lo, hi int) (rot int, reads int) {
+	cfs := &countFS{FileSystem: w.root}
+	defer func() { recover(); reads = cfs.n }()
 	sizes := map[string]uint64{}
 	var mt, wb uint64
 	for _, h := range hs {
 		data, err := io.ReadAll(&storage.Cursor{File: w.root.Open(h.uri)})
 		if err != nil {
-			return rot
+			return
 		}
 		var doc struct {
 			Checkpoints []ckptDocJ `json:"checkpoints"`
 		}
 		if json.Unmarshal(data, &doc) != nil {
-			return rot
+			return
 		}
 		for _, d := range doc.Checkpoints {
 			if d.ID != h.id {
 				continue
 			}
 			for _, wl := range d.WALs {
-				rd := wal.NewReader(w.root, wal.NewHandle(w.root, wal.HandleDocument{URI: wl.URI, After: wl.After}))
+				rd := wal.NewReader(cfs, wal.NewHandle(cfs, wal.HandleDocument{URI: wl.URI, After: wl.After}))
 				for e, err := range rd.All() {
 					if err != nil {
-						return rot
+						return
 					}
 					k := e.Key()
 					if hi > 0 {
@@ -769,7 +799,7 @@ func (w *world) replayRotations(hs []*handleRec, lo, hi int) (rot int) {
 			}
 		}
 	}
-	return rot
+	return
 }
 
 func (w *world) observeHandles() []handleObs {
@@ -1370,7 +1400,8 @@ func (r *runner) restore(o opJ) error {
 	if err := r.drainOthers(nil); err != nil {
 		return err
 	}
-	if w.replayRotations(hs, o.Lo, o.Hi) > w.capF+1 {
+	rots, walReads := w.replayRotations(hs, o.Lo, o.Hi)
+	if rots > w.capF+1 {
 		// Open would rotate more often during the replay than the flush queue takes while the harness parks the first flush task
 		// at its begin (1 running + capF pending): the opener would block in Enqueue for ever. Such a restore is not generated.
 		return nil
@@ -1462,6 +1493,13 @@ func (r *runner) restore(o opJ) error {
 		}
 	}
 	w.opening = s
+	faulted := false
+	var fdb *dkv.DB
+	if o.Fail > 0 && walReads > 0 {
+		faulted = true
+		// one storage read of the replay fails: read number (Fail-1) modulo the number of reads the healthy replay does
+		s.fs.failRead.Store(int64((o.Fail-1)%walReads) + 1)
+	}
 	var ro readObs
 	func() {
 		defer func() {
@@ -1482,9 +1520,57 @@ func (r *runner) restore(o opJ) error {
 		for _, x := range hs {
 			chs = append(chs, recovery.CheckpointHandle{CheckpointID: x.id, URI: x.uri})
 		}
-		s.db = dkv.Open(r.opts(s, own), chs)
+		if faulted {
+			// what dkv.Open does, keeping the object so that the tasks of a failed Start can be run off before the history goes on
+			w.faulting.Store(true) // until the object is registered or marked dead below
+			fdb = dkv.New(r.opts(s, own))
+			if err := fdb.Start(chs); err != nil {
+				panic(fmt.Sprintf("db.boot: %v", err))
+			}
+			s.db = fdb
+		} else {
+			s.db = dkv.Open(r.opts(s, own), chs)
+		}
 	}()
 	w.opening = nil
+	if ro.Outcome != 0 && fdb != nil {
+		// rotations before the failing read have enqueued flush tasks: they run to their end without being parked, their
+		// effects go to the void
+		s.fs.dead.Store(true)
+		w.dead.Store(fdb, true)
+		close(w.goneCh(fdb))
+		fdb.WaitOnTasks()
+	drained:
+		for {
+			select {
+			case a := <-w.arrivals:
+				close(a.gate)
+			default:
+				break drained
+			}
+		}
+	}
+	w.faulting.Store(false)
+	if fdb != nil {
+		w.gone.Delete(fdb)
+		fdb = nil
+	}
+	readFault := false
+	select {
+	case <-s.fs.fired:
+		readFault = true
+		r.tag("fault-wal-read")
+		r.nontr = true
+	default:
+	}
+	s.fs.failRead.Store(0)
+	if readFault && ro.Outcome != 0 {
+		// the fault was handed up: Open did not return a database (what the model says of a faulted restore)
+		restoreOp = fmt.Sprintf("ORestoreF %d %s", s.idx, hx.CoqBool(o.Same))
+		r.tag(fmt.Sprintf("fault-wal-read-surfaced-as-%d", ro.Outcome))
+	} else if readFault {
+		r.tag("fault-wal-read-and-open-returned-a-database")
+	}
 	if ro.Outcome != 0 {
 		// a failed Open may have left flush tasks behind (rotations during replay): they are let go into the void
 		s.fs.dead.Store(true)
